@@ -8,6 +8,7 @@ import time
 from architecture_simulator.uarch.memory.replacement_strategies import LRU, PLRU
 
 from vf.checks import cachebfs
+from vf.ref import rv32
 from vf.engine.canon import canon
 from vf.engine.core import REPO, Partial, pmap
 from vf.ref import policy as pol
@@ -199,8 +200,72 @@ def pair_shard(shard):
     rec([first])
     return p
 
+# ---- (3) the policy a cache is CONFIGURED with is the policy in effect, for both caches of one simulation -----------------
+CROSS_WAYS = (3, 4, 8)
+
+
+def cross_case(ipol, dpol, ien, den, ways):
+    """One simulation with an instruction cache (policy ipol) and a data cache (policy dpol), each enabled or merely configured.
+    The pair-cover sequence of ways+1 colliding blocks is driven through each enabled cache; after every access the tags per
+    way and the replacement_status shown by the cache table equal the reference policy of THAT cache's own configuration."""
+    from architecture_simulator.simulation.riscv_simulation import RiscvSimulation
+    from architecture_simulator.uarch.memory.cache import CacheOptions
+    from vf.ref.cache import RefCache
+    iw = ways if ipol == "lru" or ways & (ways - 1) == 0 else 4
+    dw = ways if dpol == "lru" or ways & (ways - 1) == 0 else 4
+    try:
+        sim = RiscvSimulation(data_cache=CacheOptions(den, 0, 0, dw, "wb", dpol, 0), instruction_cache=CacheOptions(ien, 0, 0, iw, "wb", ipol, 0))
+        sim.load_program("nop\n" * (max(iw, dw) + 2))
+    except Exception as e:  # noqa
+        return ("construction", f"building the simulation raised {type(e).__name__}: {e}")
+    seq_of = lambda n: cachebfs.pair_cover(n + 1)  # noqa
+    for which, enabled, pol, w in (("instruction", ien, ipol, iw), ("data", den, dpol, dw)):
+        if not enabled:
+            continue
+        ref = RefCache(0, 0, w, "wb", pol, 0)
+        for step, b in enumerate(seq_of(w)):
+            try:
+                if which == "instruction":
+                    a = 4 * b
+                    sim.state.instruction_memory.read_instruction(a)
+                    cr = sim.state.instruction_memory.cache_repr()
+                else:
+                    a = rv32.MINADDR + 4 * b
+                    sim.state.memory.read_word(a)
+                    cr = sim.state.memory.cache_repr()
+            except Exception as e:  # noqa
+                return ("access", f"{which} cache ({pol}, {w} ways): access {step} raised {type(e).__name__}: {e}")
+            ref.access(a, False, True)
+            st = cr.sets[0]
+            tags = [int(blk.tag, 16) if blk.valid_bit == "1" else None for blk in st.blocks]
+            if tags != ref.tags[0]:
+                return ("victim", f"{which} cache configured {pol} ({w} ways; the other cache: {dpol if which == 'instruction' else ipol}): after access {step} of the pair-cover "
+                                  f"sequence the tags per way are {tags}, the {pol} reference has {ref.tags[0]}")
+            if list(st.replacement_status) != list(ref.policy_state(0)):
+                return ("policy-state", f"{which} cache configured {pol} ({w} ways): replacement_status {list(st.replacement_status)}, {pol} reference {list(ref.policy_state(0))}")
+    return None
+
+
+def cross_shard(shard):
+    ipol, dpol = shard
+    p = Partial()
+    for ien, den in ((True, True), (True, False), (False, True)):
+        for ways in CROSS_WAYS:
+            p.evaluations += 1
+            p.nontrivial += 1
+            p.counters["configured-policy-in-effect"] += 1
+            d = cross_case(ipol, dpol, ien, den, ways)
+            if d:
+                p.violation(dict(oracle="configured-policy", field=d[0]), dict(kind="policy-cross", ipol=ipol, dpol=dpol, ien=ien, den=den, ways=ways),
+                            f"instruction cache {ipol}{'' if ien else ' (disabled)'} / data cache {dpol}{'' if den else ' (disabled)'}: {d[1]}", size=(ways, int(ien), int(den)))
+    p.sample(dict(kind="policy-cross", ipol=ipol, dpol=dpol, ien=True, den=True, ways=4))
+    return p
+
 
 def replay(case):
+    if case["kind"] == "policy-cross":
+        d = cross_case(case["ipol"], case["dpol"], case["ien"], case["den"], case["ways"])
+        return [(dict(oracle="configured-policy", field=d[0]), d[1])] if d else []
     if case["kind"] in ("cache-history", "cache-deep-path"):
         return cachebfs.replay(case)
     if case["kind"] == "policy-pair":
@@ -271,3 +336,7 @@ def run(ctx):
     for cfg in cfgs:
         res = cachebfs.explore(ctx, cfg, ("policy",), 40)
     ctx.require("cache-eviction", "cache-fill", "cache-hit")
+    t0 = time.time()
+    part = pmap(cross_shard, [(i, d) for i in ("lru", "plru") for d in ("lru", "plru")])
+    ctx.space("configured-policy-in-effect", part, t0, ways=list(CROSS_WAYS), note="both caches of one simulation, each enabled or merely configured, every pairing of policies")
+    ctx.require("configured-policy-in-effect")
